@@ -53,6 +53,19 @@ func c15(tier string) int {
 	add("C15", c07Programs, b)
 	add("C15", c08Programs, b)
 	add("C15", c06Programs, b)
+	// release points: by default a thread is only preempted before it acquires something; what it does
+	// right after leaving a critical section then never interleaves with the next thread entering it,
+	// and later lock hand-overs order the two for the race detector. This pass puts a point after every
+	// Unlock as well (two transactions ending and beginning on one and on two keys, and the C07 programs).
+	relProgs := []prog{
+		{"tx-end-vs-tx-first-write", "I:Sa|b01.s0a.c0|b11.s1b.g1b.c1;up=1"},
+		{"tx-rollback-vs-tx-first-write", "I:Sa|b01.s0a.r0|b11.s1a.g1a.c1;up=1"},
+		{"set-vs-set-vs-get", "I:Sa|Sa|Sb|Ga;up=1"},
+	}
+	for _, p := range c07Programs {
+		relProgs = append(relProgs, prog{p.name + "+release-points", p.src + ";up=1"})
+	}
+	add("C15", relProgs, b)
 	items = append(items,
 		conc.Item{Name: "pool-busy", Params: "w=1,k=4,s=2,l=1", MaxBound: b, Label: "C15/pool-busy"},
 		conc.Item{Name: "pool-stop", Params: "w=1,k=2,g=1", MaxBound: b, Label: "C15/pool-stop"},
